@@ -21,12 +21,14 @@ import (
 
 func main() {
 	lib.Main("C01", func(c *lib.Ctx) {
-		c.Model("From PlzV Require Import Model.Engine.", "Engine.case", "Engine.check")
+		c.Model("From PlzV Require Import Model.Engine. From PlzV Require Model.C01Ext.", "C01Ext.case", "C01Ext.check")
 		c.Rule("generated repositories (1-3 packages, 2-7 targets: genrules concat/const/copydir/listnames(/fail), filegroups, text_files; every other history of part A and part B have output_dirs targets) " +
 			"with edit histories (content edits, renames and byte shifts inside output directories, srcs/outs/cmd changes, comments, adding/removing targets, " +
 			"renaming the declared out / adding, dropping, editing sources of output_dirs targets, " +
 			"breaking/repairing a command, deleting plz-out, going back to an earlier tree, requesting a subset); after every step the real `plz build` is compared " +
 			"with a clean build of the same tree in a fresh directory, and the whole history is replayed in the Coq model. " +
+			"Part D (targeted streams, cmd/c01/streams.go): takeover = a target with 2-3 outputs replaced in the BUILD file by a target claiming some of them, then brought back; " +
+			"ino = a source behind a filegroup (output = hard link) edited in place repeatedly, replaced, renamed to a path another genrule reads, with builds in between. " +
 			"distinct = distinct histories; non-trivial = a history with at least two steps that changed the tree")
 		base := e2e.Scratch("c01")
 		defer os.RemoveAll(base)
@@ -34,8 +36,20 @@ func main() {
 		var replay struct {
 			Spec  *e2e.Spec   `json:"spec"`
 			Specs []*e2e.Spec `json:"specs"`
+			Ino   *struct {
+				C0     string     `json:"c0"`
+				Events []inoEvent `json:"events"`
+			} `json:"ino"`
 		}
-		if c.ReadReplay(&replay) && len(replay.Specs) > 0 {
+		if c.ReadReplay(&replay) && replay.Ino != nil {
+			h := runIno(base+"/ino", replay.Ino.C0, replay.Ino.Events)
+			inoOracle(c, 0, h)
+			if !h.TimedOut {
+				c.Case(inoTerm(h), map[string]any{"ino": replay.Ino}, inoKey(h), true)
+			}
+			return
+		}
+		if len(replay.Specs) > 0 {
 			replayHistory(c, base, replay.Specs)
 			return
 		}
@@ -54,6 +68,41 @@ func main() {
 		wits := append(e2e.EngWitnesses(), e2e.EngOutDirWitnesses()...)
 		wits = append(wits, e2e.EngToolRenameWitness())
 		witH := make([][]e2e.EngStep, len(wits))
+		// Part D: the targeted streams (outputs taken over by another target; hard-linked sources edited in place / renamed)
+		rD := c.Rng.Fork()
+		nTake, nIno := c.Scale(2, 24), c.Scale(2, 30)
+		takes := make([]takeoverHist, nTake)
+		inos := make([]*inoHist, nIno)
+		inoPlans := make([][]inoEvent, nIno)
+		takeRngs := make([]*lib.Rng, nTake)
+		for i := range takeRngs {
+			takeRngs[i] = rD.Fork()
+		}
+		for i := range inoPlans {
+			inoPlans[i] = inoPlan(rD.Fork(), i%2 == 0, c.Scale(3, 8))
+		}
+		wg.Add(2)
+		go func() {
+			defer wg.Done()
+			for i := range takes {
+				takes[i] = runTakeover(takeRngs[i], fmt.Sprintf("%s/t%d", base, i), i)
+			}
+		}()
+		go func() {
+			defer wg.Done()
+			var iw sync.WaitGroup
+			for i := range inos {
+				iw.Add(1)
+				go func(i int) {
+					defer iw.Done()
+					inos[i] = runIno(fmt.Sprintf("%s/i%d", base, i), "one\n", inoPlans[i])
+				}(i)
+				if i%4 == 3 {
+					iw.Wait()
+				}
+			}
+			iw.Wait()
+		}()
 		wg.Add(3 + len(wits))
 		go func() {
 			defer wg.Done()
@@ -97,7 +146,7 @@ func main() {
 			if timedOut(c, h) {
 				continue
 			}
-			c.Case(e2e.EngCaseTerm(h), histJSON(i, h, len(h)-1), e2e.EngKey(h), changed >= 2)
+			c.Case(engTerm(h), histJSON(i, h, len(h)-1), e2e.EngKey(h), changed >= 2)
 			ruleKeys(c, i, h)
 		}
 
@@ -111,7 +160,7 @@ func main() {
 			if timedOut(c, h) {
 				continue
 			}
-			c.Case(e2e.EngCaseTerm(h), histJSON(1000+wi, h, len(h)-1), e2e.EngKey(h), true)
+			c.Case(engTerm(h), histJSON(1000+wi, h, len(h)-1), e2e.EngKey(h), true)
 			ruleKeys(c, 1000+wi, h)
 		}
 
@@ -143,11 +192,35 @@ func main() {
 					}
 				}
 				if e2e.ShapeModelled(kind) {
-					c.Case(e2e.EngCaseTerm(h), histJSON(id, h, len(h)-1), e2e.EngKey(h), changed >= 2)
+					c.Case(engTerm(h), histJSON(id, h, len(h)-1), e2e.EngKey(h), changed >= 2)
 				} else {
 					c.Eval(histJSON(id, h, len(h)-1), e2e.EngKey(h), changed >= 2)
 				}
 			}
+		}
+
+		// Part D
+		for i, t := range takes {
+			h := t.Steps
+			id := 3000 + i
+			if timedOut(c, h) {
+				continue
+			}
+			for k := range h {
+				c.Hist("edit", h[k].Edit.Kind)
+				c.Hist("takeover", t.Name)
+				oracleCls(c, id, h, k, takeoverClass)
+			}
+			c.Case(engTerm(h), histJSON(id, h, len(h)-1), e2e.EngKey(h)+t.Name, true)
+			ruleKeys(c, id, h)
+		}
+		for i, h := range inos {
+			inoOracle(c, 3500+i, h)
+			if h.TimedOut {
+				continue
+			}
+			c.HistN("ino-builds", len(h.Steps))
+			c.Case(inoTerm(h), map[string]any{"stream": "ino", "history": 3500 + i, "ino": map[string]any{"c0": h.C0, "events": h.Events}, "g_ran": h.GRan, "g2_ran": h.G2Ran}, inoKey(h), len(h.Steps) >= 3)
 		}
 
 		for i, hist := range allB {
@@ -227,8 +300,15 @@ func ruleKeys(c *lib.Ctx, i int, h []e2e.EngStep) {
 	}
 }
 
+// the engine histories are one constructor of C01Ext.case (the other: the inode histories, streams.go)
+func engTerm(h []e2e.EngStep) string { return lib.App("C01Ext.Eng", e2e.EngCaseTerm(h)) }
+
 // oracle: incremental = clean at step k of history h
-func oracle(c *lib.Ctx, i int, h []e2e.EngStep, k int) {
+func oracle(c *lib.Ctx, i int, h []e2e.EngStep, k int) { oracleCls(c, i, h, k, "") }
+
+// oracleCls: as oracle; a stale output of a target whose declared outputs were claimed by ANOTHER target earlier in the history
+// is reported under the narrow class cls (when given)
+func oracleCls(c *lib.Ctx, i int, h []e2e.EngStep, k int, cls string) {
 	st := &h[k]
 	if st.TimedOut || st.Exit == -9 || st.CleanExit == -9 {
 		return
@@ -252,9 +332,39 @@ func oracle(c *lib.Ctx, i int, h []e2e.EngStep, k int) {
 				c.Fail(e2e.ToolRenameClass, fmt.Sprintf("%s after %v: incremental vs clean: %s", l, st.Edit, why), histJSON(i, h, k))
 				continue
 			}
+			if cls != "" && claimedByAnother(h, k, l) {
+				c.Fail(cls, fmt.Sprintf("%s after %v: incremental vs clean: %s", l, st.Edit, why), histJSON(i, h, k))
+				continue
+			}
 			c.Fail(e2e.StaleClass(st.Spec, l, st.Outputs, st.Clean), fmt.Sprintf("%s after %v: incremental vs clean: %s", l, st.Edit, why), histJSON(i, h, k))
 		}
 	}
+}
+
+// claimedByAnother: did a target with another label declare one of the outputs of l (same package) at an earlier step?
+func claimedByAnother(h []e2e.EngStep, k int, l string) bool {
+	t := h[k].Spec.Target(l)
+	if t == nil {
+		return false
+	}
+	pkg, _ := e2e.SplitLabel(l)
+	for j := 0; j < k; j++ {
+		for _, l2 := range h[j].Spec.Labels() {
+			p2, _ := e2e.SplitLabel(l2)
+			u := h[j].Spec.Target(l2)
+			if l2 == l || p2 != pkg || u == nil {
+				continue
+			}
+			for _, o := range u.Outs {
+				for _, o2 := range t.Outs {
+					if o == o2 {
+						return true
+					}
+				}
+			}
+		}
+	}
+	return false
 }
 
 // replayHistory re-runs a recorded sequence of trees (build all after each) and applies the oracle.
@@ -275,7 +385,7 @@ func replayHistory(c *lib.Ctx, base string, specs []*e2e.Spec) {
 		}
 	}
 	if modelled && !timedOut(c, h) {
-		c.Case(e2e.EngCaseTerm(h), histJSON(0, h, len(h)-1), e2e.EngKey(h), true)
+		c.Case(engTerm(h), histJSON(0, h, len(h)-1), e2e.EngKey(h), true)
 		ruleKeys(c, 0, h)
 	}
 }
